@@ -268,6 +268,14 @@ def explicit_inputs(ctx):
         ctx.undecided('transaction_create: branch for an outpoint found in the wallet not recognised')
     for br in found:
         row = br.test.id
+        # everything the branch takes from the wallet's own record replaces what the caller / the imported input brought: no `x = x or ...`
+        for x in br.body:
+            if isinstance(x, ast.Assign) and len(x.targets) == 1 and isinstance(x.targets[0], ast.Name):
+                nm = x.targets[0].id
+                if any(isinstance(y, ast.Name) and y.id == nm and isinstance(y.ctx, ast.Load) for y in ast.walk(x.value)):
+                    ctx.violate(q, 'for an outpoint the wallet knows, `%s` keeps a value supplied from outside when there is one (`%s`)' % (nm, norm(x)[:90]), x,
+                                'an imported multisig spend whose input says script type sig_pubkey is rebuilt with that type instead of the p2sh_multisig of the wallet record: wrong script code, the cosigner signature never verifies'
+                                if 'script' in nm else 'data of the caller override the record of the wallet')
         for col in ('value', 'key_id'):
             top = [x for x in br.body if isinstance(x, ast.Assign) and norm(x.targets[0]) == col and norm(x.value) == '%s.%s' % (row, col)]
             nested = [x for x in ast.walk(br) if isinstance(x, ast.Assign) and norm(x.targets[0]) == col and x not in top and x in [y for b in br.body for y in ast.walk(b)]]
